@@ -89,6 +89,9 @@ def run_display(case):
     elif ml == "long":
         labels = [str(i) for i in range(n_user + 2)]
         expect_error = True
+    if labels is not None and len(case["prog"]["ops"]) % 3 == 0:
+        labels = tuple(labels)                          # any sequence of the right length is a set of labels
+    labels_given = None if labels is None else list(labels)
     kw = {"display_loss": case["display_loss"], "mode_labels": labels,
           "show_parameter_values": case["show_values"]}
     info = []
@@ -121,6 +124,15 @@ def run_display(case):
                 if not (isinstance(out, tuple) and len(out) == 2 and isinstance(out[0], matplotlib.figure.Figure)
                         and isinstance(out[1], matplotlib.axes.Axes)):
                     raise Violation("mpl display did not return (Figure, Axes)", key="return-type")
+        if labels is not None and list(labels) != labels_given:
+            raise Violation(f"displaying changed the caller's mode_labels from {labels_given} to {list(labels)}",
+                            key="display-mutates-labels")
+        if labels is not None and not expect_error:
+            # the same labels serve for the next drawing of the same circuit
+            try:
+                lw.Display(c, display_type=case["backend"], **kw)
+            except Exception as e:  # noqa: BLE001
+                raise unexpected(e, f"second Display({case['backend']}) with the same mode_labels object") from e
         s2 = snapshot(c)
         if s2 != snap:
             raise Violation(f"displaying changed the circuit ({snapshot_diff(snap, s2)})", key="display-mutates-circuit")
